@@ -386,6 +386,9 @@ func (s *MemoryAllocationStore) UnmarshalJSON(data []byte) error {
 // PoolAllocator combines an IPAllocator with an AllocationStore
 // for integrated allocation and persistence.
 type PoolAllocator struct {
+	// mu makes "change the bitmap + change the store record" one step: callers
+	// such as LocalAllocator reach a PoolAllocator concurrently under a read lock
+	mu        sync.Mutex
 	allocator *IPAllocator
 	store     AllocationStore
 	poolID    string
@@ -468,6 +471,9 @@ type AllocateOptions struct {
 
 // AllocateWithOptions allocates a prefix with additional options for DHCPv6.
 func (p *PoolAllocator) AllocateWithOptions(ctx context.Context, opts AllocateOptions) (*net.IPNet, error) {
+	p.mu.Lock()
+	defer p.mu.Unlock()
+
 	// A subscriber that already holds a prefix keeps it whatever happens below
 	existing := p.allocator.Lookup(opts.SubscriberID) != nil
 
@@ -501,6 +507,9 @@ func (p *PoolAllocator) AllocateWithOptions(ctx context.Context, opts AllocateOp
 
 // Release releases a subscriber's allocation and removes from store.
 func (p *PoolAllocator) Release(ctx context.Context, subscriberID string) error {
+	p.mu.Lock()
+	defer p.mu.Unlock()
+
 	if p.allocator.Lookup(subscriberID) == nil {
 		return p.allocator.Release(subscriberID) // reports ErrNotAllocated
 	}
